@@ -165,6 +165,11 @@ func (r *Reporter) Valid(c *Case, found []Finding, recheck func(text string) []F
 		if matched {
 			continue
 		}
+		if strings.HasSuffix(f.Key, ":hang") {
+			// every evaluation of a stalling candidate costs two watchdog periods
+			r.violation("C10:"+f.Key+":not-minimized", f.Detail, c)
+			continue
+		}
 		if r.shrinks >= r.MaxShrinks || rej != nil {
 			r.violation("C10:"+f.Key+":unminimized", f.Detail, c)
 			continue
@@ -221,6 +226,10 @@ func (r *Reporter) Text(c *Case, fixedClass string, found []Finding, recheck fun
 		done[f.Key] = true
 		if fixedClass != "" {
 			r.violation("C10:"+f.Key+":"+fixedClass, f.Detail, c)
+			continue
+		}
+		if strings.HasSuffix(f.Key, ":hang") {
+			r.violation("C10:"+f.Key+":not-minimized", f.Detail, c)
 			continue
 		}
 		cls := InvalidClass(c.Raw)
